@@ -120,7 +120,9 @@ func countOutcome(c *core.Ctx, entry string, err error) {
 	}
 }
 
-func cloneStump(s u.Stump) u.Stump { return u.Stump{Roots: cloneHashes(s.Roots), NumLeaves: s.NumLeaves} }
+func cloneStump(s u.Stump) u.Stump {
+	return u.Stump{Roots: cloneHashes(s.Roots), NumLeaves: s.NumLeaves}
+}
 
 // c04Stump runs the two stand-alone entry points on a stump.
 func c04Stump(c *core.Ctx, stump u.Stump, cl claim, adds []Hash, only string, setScn func(entry string)) {
